@@ -75,6 +75,7 @@ class Ref:
         self.obj_depth = []
         self.cls_depth = 0
         self.cap_stack = []
+        self.ctx_stack = []  # ("obj", o) / ("cls",) in entry order
         self.cap_default = True
         self.handles = []  # dict(obj, path, kinds, attached)
         for r in cfg.objects:
@@ -238,10 +239,14 @@ class Ref:
             return Expect("ok", None), info
         if t == "enter":
             self.obj_depth[ev[1]] += 1
+            self.ctx_stack.append(("obj", ev[1]))
             return None, info
         if t == "exit":
             o = ev[1]
             self.obj_depth[o] -= 1
+            if ("obj", o) in self.ctx_stack:
+                i = len(self.ctx_stack) - 1 - self.ctx_stack[::-1].index(("obj", o))
+                del self.ctx_stack[i]
             conflicts = set()
             if not self.obj_buffered(o):
                 r = self.obj_res[o]
@@ -258,6 +263,7 @@ class Ref:
             return Expect("ok", None), info
         if t == "enter_cls":
             self.cls_depth += 1
+            self.ctx_stack.append(("cls",))
             self.cap_stack.append(ev[1])
             if ev[1] is not None:
                 self.cap_default = False
@@ -265,6 +271,9 @@ class Ref:
         if t == "exit_cls":
             self.cls_depth -= 1
             self.cap_stack.pop()
+            if ("cls",) in self.ctx_stack:
+                i = len(self.ctx_stack) - 1 - self.ctx_stack[::-1].index(("cls",))
+                del self.ctx_stack[i]
             leaving = [r for r in range(len(self.disk)) if not self.res_buffered(r)]
             for r in range(len(self.disk)):
                 if r not in leaving and self.in_buf[r] and self.changed_w[r]:
@@ -320,7 +329,7 @@ class Ref:
             [model.canon_json(d) for d in self.disk],
             [None if b is None else model.canon_json(b) for b in self.buf],
             self.in_buf, self.changed_w, self.ext_after, self.disk_known, self.touched,
-            self.obj_res, self.obj_depth, self.cls_depth, self.cap_stack, self.cap_default,
+            self.obj_res, self.obj_depth, self.cls_depth, self.cap_stack, self.cap_default, self.ctx_stack,
             [(h["obj"], h["path"], h["kinds"], h["attached"]) for h in self.handles],
         ))
 
